@@ -47,6 +47,8 @@ structure LoopSpec (s r : S) (outs : List OutS) : Prop where
   /-- every task ended on the way was removed / finished or is past its deadline, and is gone from the queue -/
   ends_ok : ∀ tid rm k, OutS.base (.onEnd tid rm k) ∈ outs → ∃ t ∈ s.tl.tasks, t.tid = tid ∧
               ((k = .done ∧ t.cancelled = true) ∨ (k = .deadline ∧ t.deadline ≤ s.now))
+  /-- the `SetDest` entered for a task is the one the goroutine ends up in: that task is the head of what is left -/
+  begin_final : ∀ d t, OutS.begin d (some t) ∈ outs → r.tl.taken = true ∧ r.tl.tasks.head? = some t
 
 theorem runLoop_spec (fuel : Nat) : ∀ (s : S), s.tl.taken = false → s.tl.tasks.length + (if s.signal then 1 else 0) < fuel →
     LoopSpec s (runLoop fuel s).1 (runLoop fuel s).2 := by
@@ -64,11 +66,12 @@ theorem runLoop_spec (fuel : Nat) : ∀ (s : S), s.tl.taken = false → s.tl.tas
           simp only [hl, List.length_nil, hs, if_true] at hf ⊢; simp; omega
         have := ih { s with signal := false } ht hf'
         exact ⟨by simpa [hl] using this.suffix, by simpa using this.size, this.now, this.prim, this.cur, this.cb,
-          by simpa using this.ends, by simpa [hl] using this.begins, by simpa [hl] using this.ends_ok⟩
+          by simpa using this.ends, by simpa [hl] using this.begins, by simpa [hl] using this.ends_ok, this.begin_final⟩
       · simp only [hs, Bool.false_eq_true, if_false]
-        refine ⟨by simp [hl], by intro h; simpa using h, rfl, rfl, rfl, rfl, Or.inl ⟨rfl, hl, ht, by simp⟩, ?_, ?_⟩
+        refine ⟨by simp [hl], by intro h; simpa using h, rfl, rfl, rfl, rfl, Or.inl ⟨rfl, hl, ht, by simp⟩, ?_, ?_, ?_⟩
         · intro d t h; simp at h
         · intro tid rm k h; simp at h
+        · intro d t h; simp at h
     | cons t rest =>
       simp only
       have hf' : ∀ (x : S), x.tl.tasks = rest → x.signal = s.signal → x.tl.tasks.length + (if x.signal then 1 else 0) < fuel := by
@@ -81,7 +84,12 @@ theorem runLoop_spec (fuel : Nat) : ∀ (s : S), s.tl.taken = false → s.tl.tas
         intro s1 k h1 h2 h3 h4 h5 h6 h7 h8 hk
         obtain ⟨r1, r2, r3, r4, r5, r6, r7, r8, _, r10⟩ := retire_spec s1 t rest k h1 h2
         have := ih (retire s1 t k).1 r2 (hf' _ r1 (by rw [r6, h5]))
-        refine ⟨?_, ?_, by rw [this.now, r4, h3], by rw [this.prim, r5, h4], by rw [this.cur, r7, h6], by rw [this.cb, r8, h7], ?_, ?_, ?_⟩
+        refine ⟨?_, ?_, by rw [this.now, r4, h3], by rw [this.prim, r5, h4], by rw [this.cur, r7, h6], by rw [this.cb, r8, h7], ?_, ?_, ?_, ?_⟩
+        rotate_right
+        · intro d t' h
+          rw [r10] at h
+          simp only [List.mem_append, List.mem_cons, List.not_mem_nil, or_false, reduceCtorEq, false_or] at h
+          exact this.begin_final d t' h
         · rw [hl]; exact (this.suffix.trans (by rw [r1]; exact List.suffix_cons t rest))
         · intro hsz
           apply this.size
@@ -118,13 +126,18 @@ theorem runLoop_spec (fuel : Nat) : ∀ (s : S), s.tl.taken = false → s.tl.tas
         · simp only [hd, if_false]
           have hc' : t.cancelled = false := by simpa using hc
           refine ⟨by simp [hl], by intro h; simpa [hl] using h, rfl, rfl, rfl, rfl,
-            Or.inr ⟨t, rest, rfl, by simp [hl], rfl, hc', by omega, by simp⟩, ?_, ?_⟩
+            Or.inr ⟨t, rest, rfl, by simp [hl], rfl, hc', by omega, by simp⟩, ?_, ?_, ?_⟩
           · intro d t' h
             simp only [List.mem_cons, List.not_mem_nil, or_false, OutS.begin.injEq, Option.some.injEq] at h
             obtain ⟨h1, h2⟩ := h
             subst h2
             exact ⟨by simp [hl], h1.symm, hc', by omega⟩
           · intro tid rm k h; simp at h
+          · intro d t' h
+            simp only [List.mem_cons, List.not_mem_nil, or_false, OutS.begin.injEq, Option.some.injEq] at h
+            obtain ⟨_, h2⟩ := h
+            subst h2
+            exact ⟨rfl, by simp [hl]⟩
 
 theorem loop_wf (s r : S) (outs : List OutS) (h : LoopSpec s r outs) (hsz : s.tl.size = s.tl.tasks.length) : WFs r := by
   rcases h.ends with ⟨a, b, c, _⟩ | ⟨t, rest, a, b, c, _, _, _⟩
@@ -151,12 +164,24 @@ structure WakeSpec (s r : S) (outs : List OutS) : Prop where
   cb     : r.cb = s.cb
   prim   : r.primary = s.primary
   wf     : WFs r
+  begin_final : ∀ d t, OutS.begin d (some t) ∈ outs → r.tl.taken = true ∧ r.tl.tasks.head? = some t
+  begins_tail : s.tl.taken = true → ∀ d t, OutS.begin d (some t) ∈ outs → t ∈ s.tl.tasks.tail
+  held_then : r.tl.taken = true → (∃ d t, OutS.begin d (some t) ∈ outs) ∨ (r.tl.tasks = s.tl.tasks ∧ s.tl.taken = true)
+  dropped_head : s.tl.taken = true → r.tl.taken = false → r.tl.tasks <:+ s.tl.tasks.tail
+
+theorem loop_held (s r : S) (outs : List OutS) (h : LoopSpec s r outs) (ht : r.tl.taken = true) :
+    ∃ d t, OutS.begin d (some t) ∈ outs := by
+  rcases h.ends with ⟨_, _, c, _⟩ | ⟨t, rest, _, _, _, _, _, f⟩
+  · rw [c] at ht; cases ht
+  · exact ⟨t.dest, t, List.mem_of_getLast? f⟩
 
 theorem loop_to_wake (s0 s r : S) (outs : List OutS) (h : LoopSpec s r outs) (ht : s.tl.tasks = s0.tl.tasks) (hn : s.now = s0.now)
     (hc : s.cur = s0.cur) (hb : s.cb = s0.cb) (hp : s.primary = s0.primary)
-    (hno : ∀ d b, OutS.base (.setDest d b) ∉ outs) (hsz : s.tl.size = s.tl.tasks.length) : WakeSpec s0 r outs :=
+    (hno : ∀ d b, OutS.base (.setDest d b) ∉ outs) (hsz : s.tl.size = s.tl.tasks.length) (hfree : s0.tl.taken = false) : WakeSpec s0 r outs :=
   ⟨ht ▸ h.suffix, by rw [← ht, ← hn]; exact h.begins, by rw [← ht, ← hn]; exact h.ends_ok, hno,
-   by rw [h.now, hn], by rw [h.cur, hc], by rw [h.cb, hb], by rw [h.prim, hp], loop_wf s r outs h hsz⟩
+   by rw [h.now, hn], by rw [h.cur, hc], by rw [h.cb, hb], by rw [h.prim, hp], loop_wf s r outs h hsz, h.begin_final,
+   (by intro h2; rw [hfree] at h2; cases h2), fun ht' => Or.inl (loop_held s r outs h ht'),
+   (by intro h2; rw [hfree] at h2; cases h2)⟩
 
 theorem runLoop_nosetdest (fuel : Nat) : ∀ (s : S) d b, OutS.base (.setDest d b) ∉ (runLoop fuel s).2 := by
   induction fuel with
@@ -191,7 +216,8 @@ theorem wake_other (s : S) (h1 : s.pc ≠ .parked) (h2 : s.pc ≠ .serving) : wa
   unfold wake; split <;> simp_all
 
 theorem wakeSpec_refl (s : S) (hw : WFs s) : WakeSpec s s [] :=
-  ⟨List.suffix_refl _, by simp, by simp, by simp, rfl, rfl, rfl, rfl, hw⟩
+  ⟨List.suffix_refl _, by simp, by simp, by simp, rfl, rfl, rfl, rfl, hw, (by simp), (by simp), fun h => Or.inr ⟨rfl, h⟩,
+   (by intro h1 h2; rw [h1] at h2; cases h2)⟩
 
 theorem wake_spec_parked (s : S) (hw : WFs s) (hpc : s.pc = .parked) : WakeSpec s (wake s).1 (wake s).2 := by
   rw [wake_parked s hpc]
@@ -199,7 +225,7 @@ theorem wake_spec_parked (s : S) (hw : WFs s) (hpc : s.pc = .parked) : WakeSpec 
   split
   · have hf : ({ s with signal := false } : S).tl.tasks.length + (if ({ s with signal := false } : S).signal then 1 else 0) < fuelFor s := by
       simp [fuelFor]; omega
-    exact loop_to_wake s { s with signal := false } _ _ (runLoop_spec _ { s with signal := false } htk hf) rfl rfl rfl rfl rfl (runLoop_nosetdest _ _) hw.size
+    exact loop_to_wake s { s with signal := false } _ _ (runLoop_spec _ { s with signal := false } htk hf) rfl rfl rfl rfl rfl (runLoop_nosetdest _ _) hw.size htk
   · exact wakeSpec_refl s hw
 
 theorem wake_spec_serving (s : S) (hw : WFs s) (hpc : s.pc = .serving) : WakeSpec s (wake s).1 (wake s).2 := by
@@ -222,7 +248,21 @@ theorem wake_spec_serving (s : S) (hw : WFs s) (hpc : s.pc = .serving) : WakeSpe
       have hsz' : (retire s1 t k).1.tl.size = (retire s1 t k).1.tl.tasks.length := by
         rw [r3, r1, h1, hw.size, hl]; simp
       refine ⟨?_, ?_, ?_, ?_, by rw [this.now, r4, h3], by rw [this.cur, r7, h6], by rw [this.cb, r8, h7], by rw [this.prim, r5, h4],
-        loop_wf _ _ _ this hsz'⟩
+        loop_wf _ _ _ this hsz', ?_, ?_, fun ht' => Or.inl (by
+          obtain ⟨d, t', hm⟩ := loop_held _ _ _ this ht'
+          exact ⟨d, t', by rw [r10]; exact List.mem_append_right _ hm⟩),
+        fun _ _ => by rw [hl]; exact this.suffix.trans (by rw [r1]; exact List.suffix_refl _)⟩
+      rotate_right 2
+      · intro d t' h
+        rw [r10] at h
+        simp only [List.mem_append, List.mem_cons, List.not_mem_nil, or_false, reduceCtorEq, false_or] at h
+        exact this.begin_final d t' h
+      · intro _ d t' h
+        rw [r10] at h
+        simp only [List.mem_append, List.mem_cons, List.not_mem_nil, or_false, reduceCtorEq, false_or] at h
+        have a := (this.begins d t' h).1
+        rw [r1] at a
+        rw [hl]; exact a
       · rw [hl]; exact this.suffix.trans (by rw [r1]; exact List.suffix_cons t rest)
       · intro d t' h
         rw [r10] at h
@@ -254,7 +294,8 @@ theorem wake_spec_serving (s : S) (hw : WFs s) (hpc : s.pc = .serving) : WakeSpe
         have hw' : WFs { s with pc := .serving } := by
           have : ({ s with pc := .serving } : S) = s := by cases s; simp_all
           rw [this]; exact hw
-        exact ⟨List.suffix_refl _, by simp, by simp, by simp, rfl, rfl, rfl, rfl, hw'⟩
+        exact ⟨List.suffix_refl _, by simp, by simp, by simp, rfl, rfl, rfl, rfl, hw', (by simp), (by simp),
+          fun _ => Or.inr ⟨rfl, htk⟩, (by intro _ h2; simp only at h2; rw [htk] at h2; cases h2)⟩
 
 theorem wake_spec (s : S) (hw : WFs s) : WakeSpec s (wake s).1 (wake s).2 := by
   by_cases h1 : s.pc = .parked
@@ -474,5 +515,275 @@ theorem tickHead_spec (s : S) (cid : String) (target : Int) (hw : WFs s) (hc : C
     · exact clean_wake _ cid (wfs_now s _ hw) hc
     · exact ⟨hw, hc, noBegin_nil cid⟩
   · exact ⟨hw, hc, noBegin_nil cid⟩
+
+end PRV.Proofs.C07Slow
+
+namespace PRV.Proofs.C07Slow
+open PRV.Model.Sched (Task TaskList EndKind Out)
+open PRV.Model.SchedSlow PRV.Proofs.C07
+
+/-! ### arrival order -/
+
+/-- the queue is in arrival order: task ids increase along it and are below the next id to be given out -/
+def Ordered (s : S) : Prop := (s.tl.tasks.map (·.tid)).Pairwise (· < ·) ∧ ∀ t ∈ s.tl.tasks, t.tid < s.serial
+
+theorem ordered_of_sublist (s r : S) (h : Ordered s) (hs : (r.tl.tasks.map (·.tid)).Sublist (s.tl.tasks.map (·.tid)))
+    (hm : ∀ t ∈ r.tl.tasks, ∃ t0 ∈ s.tl.tasks, t.tid = t0.tid) (hser : s.serial ≤ r.serial) : Ordered r := by
+  refine ⟨h.1.sublist hs, ?_⟩
+  intro t ht
+  obtain ⟨t0, h0, e⟩ := hm t ht
+  have := h.2 t0 h0
+  omega
+
+theorem retire_serial (s : S) (t : Task) (k : EndKind) : (retire s t k).1.serial = s.serial := by
+  unfold retire; split <;> rfl
+
+theorem runLoop_serial (fuel : Nat) : ∀ s : S, (runLoop fuel s).1.serial = s.serial := by
+  induction fuel with
+  | zero => intro s; rfl
+  | succ fuel ih =>
+    intro s
+    unfold runLoop
+    split
+    · split
+      · rw [ih]
+      · rfl
+    · simp only
+      split
+      · rw [ih, retire_serial]
+      · split
+        · rw [ih, retire_serial]
+        · rfl
+
+theorem wake_serial (s : S) : (wake s).1.serial = s.serial := by
+  unfold wake
+  split
+  · split
+    · rw [runLoop_serial]
+    · rfl
+  · unfold serve
+    split
+    · rfl
+    · simp only
+      split
+      · rw [runLoop_serial, retire_serial]
+      · split
+        · rw [runLoop_serial, retire_serial]
+        · rfl
+  · rfl
+
+theorem ordered_suffix (s r : S) (h : Ordered s) (hs : r.tl.tasks <:+ s.tl.tasks) (hser : s.serial ≤ r.serial) : Ordered r :=
+  ordered_of_sublist s r h (hs.sublist.map _) (fun t ht => ⟨t, hs.subset ht, rfl⟩) hser
+
+/-- `b` is the id of the task a `SetDest` was last entered for (−1: none yet): it is the head while the goroutine holds
+the head, and every queued task that is not held came later -/
+structure OrdInv (s : S) (b : Int) : Prop where
+  wf : WFs s
+  ord : Ordered s
+  held : s.tl.taken = true → ∃ t rest, s.tl.tasks = t :: rest ∧ (t.tid : Int) = b
+  free : s.tl.taken = false → ∀ t ∈ s.tl.tasks, b < (t.tid : Int)
+  lt : b < (s.serial : Int)
+
+theorem ordered_head_lt (s : S) (h : Ordered s) (t : Task) (rest : List Task) (hl : s.tl.tasks = t :: rest) :
+    ∀ t' ∈ rest, t.tid < t'.tid := by
+  have := h.1
+  rw [hl] at this
+  simp only [List.map_cons, List.pairwise_cons, List.mem_map, forall_exists_index, and_imp, forall_apply_eq_imp_iff₂] at this
+  exact this.1
+
+/-- waking the goroutine from an ordered state: every `SetDest` it enters is for a task that arrived after the one it
+last entered one for, and that task is then the last -/
+theorem wake_ord (s : S) (b : Int) (h : OrdInv s b) :
+    ∃ b', OrdInv (wake s).1 b' ∧ b ≤ b' ∧ ∀ d t, OutS.begin d (some t) ∈ (wake s).2 → b < (t.tid : Int) ∧ (t.tid : Int) = b' := by
+  have sp := wake_spec s h.wf
+  have hser := wake_serial s
+  have hord : Ordered (wake s).1 := ordered_suffix s _ h.ord sp.suffix (by rw [hser])
+  -- a task begun lies beyond b
+  have beyond : ∀ d t, OutS.begin d (some t) ∈ (wake s).2 → b < (t.tid : Int) := by
+    intro d t hm
+    by_cases ht : s.tl.taken = true
+    · obtain ⟨t0, rest, hl, hb⟩ := h.held ht
+      have := sp.begins_tail ht d t hm
+      rw [hl] at this
+      have := ordered_head_lt s h.ord t0 rest hl t this
+      omega
+    · exact h.free (by simpa using ht) t (sp.begins d t hm).1
+  by_cases hb : ∃ d t, OutS.begin d (some t) ∈ (wake s).2
+  · obtain ⟨d, t, hm⟩ := hb
+    obtain ⟨htk, hhead⟩ := sp.begin_final d t hm
+    refine ⟨t.tid, ⟨sp.wf, hord, ?_, ?_, ?_⟩, le_of_lt (beyond d t hm), ?_⟩
+    · intro _
+      cases hl : (wake s).1.tl.tasks with
+      | nil => rw [hl] at hhead; cases hhead
+      | cons t1 rest => rw [hl] at hhead; simp only [List.head?_cons, Option.some.injEq] at hhead; subst hhead; exact ⟨_, _, rfl, rfl⟩
+    · intro hf; rw [htk] at hf; cases hf
+    · have := h.ord.2 t (sp.begins d t hm).1
+      rw [hser]; omega
+    · intro d2 t2 hm2
+      obtain ⟨_, hhead2⟩ := sp.begin_final d2 t2 hm2
+      rw [hhead] at hhead2
+      simp only [Option.some.injEq] at hhead2
+      subst hhead2
+      exact ⟨beyond d2 t hm2, rfl⟩
+  · refine ⟨b, ⟨sp.wf, hord, ?_, ?_, by rw [hser]; exact h.lt⟩, le_refl _, fun d t hm => absurd ⟨d, t, hm⟩ hb⟩
+    · intro htk
+      rcases sp.held_then htk with hx | ⟨he, hs⟩
+      · exact absurd hx hb
+      · rw [he]; exact h.held hs
+    · intro hf t ht
+      by_cases hs : s.tl.taken = true
+      · obtain ⟨t0, rest, hl, hb0⟩ := h.held hs
+        have := (sp.dropped_head hs hf).subset ht
+        rw [hl] at this
+        have := ordered_head_lt s h.ord t0 rest hl t this
+        omega
+      · exact h.free (by simpa using hs) t (sp.suffix.subset ht)
+
+/-! ### the queue update of every event keeps the order invariant -/
+
+theorem ord_addTask (s : S) (b : Int) (cid dest : String) (job dl : Int) (h : OrdInv s b) : OrdInv (addTask s cid dest job dl) b := by
+  refine ⟨wfs_addTask s cid dest job dl h.wf, ?_, ?_, ?_, ?_⟩
+  · refine ⟨?_, ?_⟩
+    · simp only [addTask, TaskList.add, List.map_append, List.map_cons, List.map_nil]
+      rw [List.pairwise_append]
+      refine ⟨h.ord.1, by simp, ?_⟩
+      intro a ha c hc
+      simp only [List.mem_singleton] at hc
+      simp only [List.mem_map] at ha
+      obtain ⟨t, ht, e⟩ := ha
+      have := h.ord.2 t ht
+      omega
+    · intro t ht
+      simp only [addTask, TaskList.add, List.mem_append, List.mem_singleton] at ht
+      rcases ht with ht | ht
+      · have := h.ord.2 t ht; simp only [addTask]; omega
+      · subst ht; simp [addTask]
+  · intro ht
+    obtain ⟨t, rest, hl, hb⟩ := h.held ht
+    exact ⟨t, rest ++ [{ tid := s.serial, cid := cid, dest := dest, remaining := job, deadline := dl }], by simp [addTask, TaskList.add, hl], hb⟩
+  · intro hf t ht
+    simp only [addTask, TaskList.add, List.mem_append, List.mem_singleton] at ht
+    rcases ht with ht | ht
+    · exact h.free hf t ht
+    · subst ht; exact h.lt
+  · have := h.lt; simp only [addTask]; push_cast; omega
+
+theorem ord_cancel (s : S) (b : Int) (cid : String) (h : OrdInv s b) : OrdInv { s with tl := s.tl.cancel cid } b := by
+  have hsub : ((s.tl.cancel cid).tasks.map (·.tid)).Sublist (s.tl.tasks.map (·.tid)) := by
+    cases hl : s.tl.tasks with
+    | nil => rw [cancel_nil s.tl cid hl, hl]; simp
+    | cons t0 rest =>
+      rw [cancel_tasks s.tl cid t0 rest hl]
+      split
+      · simp only [List.map_cons]
+        exact (List.filter_sublist.map _).cons_cons _
+      · exact (List.filter_sublist.map _)
+  refine ⟨wfs_cancel s cid h.wf, ?_, ?_, ?_, h.lt⟩
+  · refine ordered_of_sublist s _ h.ord hsub ?_ (le_refl _)
+    intro t ht
+    obtain ⟨t0, hm, e, _⟩ := cancel_mem s.tl cid t ht
+    exact ⟨t0, hm, e⟩
+  · intro ht
+    simp only [cancel_taken] at ht
+    obtain ⟨t0, rest, hl, hb⟩ := h.held ht
+    simp only
+    rw [cancel_tasks s.tl cid t0 rest hl]
+    by_cases hc : t0.cid = cid
+    · simp only [ht, hc, and_self, if_true]; exact ⟨_, _, rfl, hb⟩
+    · simp only [hc, and_false, if_false]
+      have hd : other cid t0 = true := by simp [other, hc]
+      rw [List.filter_cons_of_pos hd]; exact ⟨_, _, rfl, hb⟩
+  · intro hf t ht
+    simp only [cancel_taken] at hf
+    obtain ⟨t0, hm, e, _⟩ := cancel_mem s.tl cid t ht
+    have := h.free hf t0 hm
+    omega
+
+theorem ord_now (s : S) (b : Int) (n : Int) (h : OrdInv s b) : OrdInv { s with now := n } b :=
+  ⟨wfs_now s n h.wf, h.ord, h.held, h.free, h.lt⟩
+
+theorem ord_credit (s : S) (b : Int) (tid : Nat) (diff : Int) (h : OrdInv s b) : OrdInv (credit s tid diff) b := by
+  have key : ∀ (s1 : S), OrdInv s1 b → OrdInv (markDone s1 tid) b := by
+    intro s1 h1
+    have hmap : (markDone s1 tid).tl.tasks.map (·.tid) = s1.tl.tasks.map (·.tid) := by
+      simp only [markDone, List.map_map]
+      apply List.map_congr_left
+      intro t _
+      simp only [Function.comp]
+      split <;> rfl
+    refine ⟨wfs_markDone s1 tid h1.wf, ⟨by rw [hmap]; exact h1.ord.1, ?_⟩, ?_, ?_, h1.lt⟩
+    · intro t ht
+      simp only [markDone, List.mem_map] at ht
+      obtain ⟨t0, hm, e⟩ := ht
+      have := h1.ord.2 t0 hm
+      have : t.tid = t0.tid := by rw [← e]; split <;> rfl
+      simp only [markDone]; omega
+    · intro ht
+      obtain ⟨t0, rest, hl, hb⟩ := h1.held ht
+      refine ⟨(fun t : Task => if t.tid = tid then { t with cancelled := true } else t) t0,
+        rest.map (fun t : Task => if t.tid = tid then { t with cancelled := true } else t), by simp only [markDone, hl, List.map_cons], ?_⟩
+      dsimp only; split <;> exact hb
+    · intro hf t ht
+      simp only [markDone, List.mem_map] at ht
+      obtain ⟨t0, hm, e⟩ := ht
+      have := h1.free hf t0 hm
+      have : t.tid = t0.tid := by rw [← e]; split <;> rfl
+      omega
+  have hrem : OrdInv (setRem s tid (getRem s tid - diff)) b := ⟨wfs_setRem s tid _ h.wf, h.ord, h.held, h.free, h.lt⟩
+  unfold credit
+  simp only
+  split
+  · exact key _ hrem
+  · exact hrem
+
+theorem ord_arrive (s : S) (b : Int) (h : OrdInv s b) (hex : s.pc ≠ .exited) : OrdInv (arrive s).1 b := by
+  have ha := arrive_spec s "" h.wf hex
+  have htl := ha.2.1
+  have hser : (arrive s).1.serial = s.serial := by unfold arrive; split <;> rfl
+  exact ⟨ha.1, ⟨by rw [htl]; exact h.ord.1, by rw [htl, hser]; exact h.ord.2⟩, by rw [htl]; exact h.held, by rw [htl]; exact h.free,
+    by rw [hser]; exact h.lt⟩
+
+theorem leave_idle (s : S) (h : s.pc = .toPrimary ∨ ∃ tid d, s.pc = .toTask tid d) : leave s = (s, []) := by
+  unfold leave
+  rcases h with h | ⟨tid, d, h⟩ <;> rw [h]
+
+theorem leave_eq (s : S) (h1 : s.pc ≠ .toPrimary) (h2 : ∀ tid d, s.pc ≠ .toTask tid d) :
+    (leave s).1.tl = PRV.Model.Sched.dropInService s.tl ∧ (leave s).1.serial = s.serial := by
+  unfold leave
+  split
+  · rename_i hpc; exact absurd hpc h1
+  · rename_i tid d hpc; exact absurd hpc (h2 tid d)
+  · exact ⟨rfl, rfl⟩
+
+theorem ord_leave (s : S) (b : Int) (h : OrdInv s b) : OrdInv (leave s).1 b ∧ ∀ d t, OutS.begin d (some t) ∉ (leave s).2 := by
+  refine ⟨?_, fun d t hm => (leave_spec s t.cid h.wf).2.2 d t hm rfl⟩
+  by_cases hidle : s.pc = .toPrimary ∨ ∃ tid d, s.pc = .toTask tid d
+  · rw [leave_idle s hidle]; exact h
+  · have h1 : s.pc ≠ .toPrimary := fun e => hidle (Or.inl e)
+    have h2 : ∀ tid d, s.pc ≠ .toTask tid d := fun tid d e => hidle (Or.inr ⟨tid, d, e⟩)
+    obtain ⟨etl, eser⟩ := leave_eq s h1 h2
+    have hsuf : (PRV.Model.Sched.dropInService s.tl).tasks <:+ s.tl.tasks ∧
+        (PRV.Model.Sched.dropInService s.tl).taken = false ∧
+        (s.tl.taken = true → (PRV.Model.Sched.dropInService s.tl).tasks = s.tl.tasks.tail) := by
+      unfold PRV.Model.Sched.dropInService
+      by_cases ht : s.tl.taken = true
+      · cases hq : s.tl.tasks with
+        | nil => exact absurd hq (h.wf.head ht)
+        | cons t0 rest =>
+          simp only [ht, if_true, TaskList.unlockAndRemove, hq, Bool.not_true, Bool.false_eq_true, if_false, List.tail_cons]
+          exact ⟨List.suffix_cons t0 rest, trivial, fun _ => trivial⟩
+      · have ht' : s.tl.taken = false := by simpa using ht
+        simp only [ht', Bool.false_eq_true, if_false]
+        exact ⟨List.suffix_refl _, trivial, fun hx => by cases hx⟩
+    refine ⟨(leave_spec s "" h.wf).1, ordered_suffix s _ h.ord (by rw [etl]; exact hsuf.1) (by rw [eser]), ?_, ?_, by rw [eser]; exact h.lt⟩
+    · intro ht; rw [etl, hsuf.2.1] at ht; cases ht
+    · intro _ t ht
+      rw [etl] at ht
+      by_cases hs : s.tl.taken = true
+      · obtain ⟨t0, rest, hq, hb0⟩ := h.held hs
+        rw [hsuf.2.2 hs, hq] at ht
+        have := ordered_head_lt s h.ord t0 rest hq t ht
+        omega
+      · exact h.free (by simpa using hs) t (hsuf.1.subset ht)
 
 end PRV.Proofs.C07Slow
